@@ -1,1 +1,363 @@
-import GeoModel
+/-
+  Property C17: every constructible object serialises to well-formed JSON.
+
+  The grammar (`IsJSON`, `IsNumTok`, `IsStrTok`, `IsJSONValue`, `IsJSONObject`), the
+  token-well-formedness predicate on ASTs (`JVal.TokOK`), the relation `Written x v`
+  ("v is a token-well-formed AST of the document `write x`") and the precondition `WriteOK`
+  are defined in GeoProofs.WriteLemmas.
+
+  Number codec convention (trusted contract): the canonical text of a finite float is a number
+  token; this enters only through `WriteOK` (each ordinate text is "null" or a number token).
+-/
+import GeoProofs.WriteLemmas
+
+namespace Geo
+
+/-! ### render of a token-well-formed AST is JSON -/
+
+/-- the leaves of `v` are tokens (`raw` of every num is a number token, `raw` of every str and
+    every member key is a string token) ⇒ the minified text is a JSON value -/
+theorem render_is_json (v : JVal) (h : v.TokOK) : IsJSONValue v.render.toList :=
+  render_json v h
+
+/-! ### the writers produce JSON objects -/
+
+theorem write_is_json (x : Obj) (h : WriteOK x) : ∃ s, write x = some s ∧ IsJSONObject s.toList := by
+  obtain ⟨v, hv⟩ := h.written
+  obtain ⟨hw, hok⟩ := hv.render
+  obtain ⟨ty, key, c, fm, rfl⟩ := hv.isObj
+  refine ⟨_, hw, .inr ?_⟩
+  exact render_obj_isObject1 (by simp) (by simpa [mkObj, JVal.TokOK] using hok)
+
+/-- in particular the text is a JSON value -/
+theorem write_is_json_value (x : Obj) (h : WriteOK x) : ∃ s, write x = some s ∧ IsJSONValue s.toList :=
+  let ⟨s, hs, hj⟩ := write_is_json x h; ⟨s, hs, hj.isValue⟩
+
+/-! ### the `type` member -/
+
+/-- the text starts with `{"type":"<T>"` where T is the GeoJSON type of the kind: Point for
+    point/spoint, LineString, Polygon for polygon/rectO, the collection's typeName, Feature for
+    feature and circle (`geomType`) -/
+theorem write_type (x : Obj) (s : String) (h : write x = some s) :
+    ∃ rest, s = "{\"type\":\"" ++ geomType x ++ "\"" ++ rest := by
+  have key : ∀ (o : Option String) (ty k tail : String),
+      o.map (fun c => objText ty k c tail) = some s → ∃ rest, s = "{\"type\":\"" ++ ty ++ "\"" ++ rest := by
+    intro o ty k tail ho
+    cases o with
+    | none => cases ho
+    | some c =>
+      simp only [Option.map_some, Option.some.injEq] at ho
+      subst ho
+      exact ⟨",\"" ++ k ++ "\":" ++ c ++ tail ++ "}", by simp only [objText]; str_eq⟩
+  cases x with
+  | point pos ex => rw [write_point] at h; exact key _ _ _ _ h
+  | spoint pos => rw [write_spoint] at h; exact key _ _ _ _ h
+  | lineString l poss ex => rw [write_lineString] at h; exact key _ _ _ _ h
+  | polygon p rings ex => rw [write_polygon] at h; exact key _ _ _ _ h
+  | rectO b lo hi => rw [write_rectO] at h; exact key _ _ _ _ h
+  | feature b ex => rw [write_feature] at h; exact key _ _ _ _ h
+  | coll kind cs ex idx =>
+    rw [write_coll] at h
+    cases hp : writeParts kind cs with
+    | none => simp [hp] at h
+    | some parts =>
+      simp only [hp, Option.map_some, Option.some.injEq] at h
+      subst h
+      exact ⟨",\"" ++ collKey kind ++ "\":" ++ ("[" ++ cj parts ++ "]") ++ writeExtra ex false ++ "}",
+        by simp only [objText, geomType]; str_eq⟩
+  | circle c r =>
+    simp only [write, Option.some.injEq] at h
+    subst h
+    exact ⟨",\"geometry\":{\"type\":\"Point\",\"coordinates\":[" ++ c.xs ++ "," ++ c.ys ++
+      "]},\"properties\":{\"type\":\"Circle\",\"radius\":" ++ r ++ ",\"radius_units\":\"m\"}}",
+      by simp only [geomType]; str_eq⟩
+
+/-! ### nesting depth of `"coordinates"` -/
+
+/-- a number or `null` -/
+def IsOrdLeaf : JVal → Prop
+  | .null => True
+  | .num _ _ _ _ _ => True
+  | _ => False
+
+/-- `ArrDepth n v`: `v` is an array nested to depth `n` over positions: depth 1 is a position (an
+    array of at least two numbers/nulls); an empty array is allowed at any level above the
+    position level -/
+def ArrDepth : Nat → JVal → Prop
+  | 0, v => IsOrdLeaf v
+  | n + 1, .arr items => (n = 0 → 2 ≤ items.length) ∧ ∀ i ∈ items, ArrDepth n i
+  | _ + 1, _ => False
+
+/-- depth of the coordinates of a leaf geometry -/
+def leafDepth : Obj → Option Nat
+  | .point _ _ => some 1
+  | .spoint _ => some 1
+  | .lineString _ _ _ => some 2
+  | .polygon _ _ _ => some 3
+  | .rectO _ _ _ => some 3
+  | _ => none
+
+/-- depth the GeoJSON type requires: Point 1, LineString/MultiPoint 2, Polygon/MultiLineString 3,
+    MultiPolygon 4 -/
+def coordDepth : Obj → Nat
+  | .coll .multiPoint _ _ _ => 2
+  | .coll .multiLineString _ _ _ => 3
+  | .coll .multiPolygon _ _ _ => 4
+  | o => (leafDepth o).getD 0
+
+/-- the geometry kinds (with children of the kind the Multi* type has) -/
+def IsGeomKind : Obj → Prop
+  | .coll .multiPoint cs _ _ => ∀ c ∈ cs, leafDepth c = some 1
+  | .coll .multiLineString cs _ _ => ∀ c ∈ cs, leafDepth c = some 2
+  | .coll .multiPolygon cs _ _ => ∀ c ∈ cs, leafDepth c = some 3
+  | o => (leafDepth o).isSome
+
+theorem NumV.leaf {t n} (h : NumV t n) : IsOrdLeaf n := by
+  rcases h with ⟨_, rfl⟩ | ⟨_, _, _, rfl⟩ <;> trivial
+
+theorem all2_numV_leaf {ts es} (h : All2 NumV ts es) : ∀ v ∈ es, IsOrdLeaf v := by
+  induction h with
+  | nil => simp
+  | cons h _ ih =>
+    intro v hv
+    rcases List.mem_cons.mp hv with rfl | hv
+    · exact h.leaf
+    · exact ih v hv
+
+theorem PosV.depth {pos ex i n} (h : PosV pos ex i n) : ArrDepth 1 n := by
+  obtain ⟨nx, ny, ts, es, hx, hy, _, hes, rfl⟩ := h
+  refine ⟨fun _ => by simp, ?_⟩
+  intro v hv
+  simp only [List.mem_cons] at hv
+  rcases hv with rfl | rfl | hv
+  · exact hx.numV.leaf
+  · exact hy.numV.leaf
+  · exact all2_numV_leaf hes v hv
+
+theorem SeriesV.depth {ex} : ∀ {ps i ns}, SeriesV ex ps i ns → ArrDepth 2 (.arr ns)
+  | [], _, _, h => by cases h; exact ⟨by simp, by simp⟩
+  | p :: ps, i, _, ⟨n, ns', rfl, hp, hs⟩ => by
+    have ih := SeriesV.depth hs
+    refine ⟨by simp, ?_⟩
+    intro v hv
+    rcases List.mem_cons.mp hv with rfl | hv
+    · exact hp.depth
+    · exact ih.2 v hv
+
+theorem RingsV.depth {ex} : ∀ {rs i ns}, RingsV ex rs i ns → ArrDepth 3 (.arr ns)
+  | [], _, _, h => by cases h; exact ⟨by simp, by simp⟩
+  | r :: rs, i, _, ⟨rn, ns', rfl, hr, hs⟩ => by
+    have ih := RingsV.depth hs
+    refine ⟨by simp, ?_⟩
+    intro v hv
+    rcases List.mem_cons.mp hv with rfl | hv
+    · exact hr.depth
+    · exact ih.2 v hv
+
+theorem CoordsV.depth : ∀ {x c}, CoordsV x c → ∀ d, leafDepth x = some d → ArrDepth d c
+  | .point _ _, _, h, d, hd => by cases hd; exact PosV.depth h
+  | .spoint _, _, h, d, hd => by cases hd; exact PosV.depth h
+  | .lineString _ _ _, _, ⟨ns, h, rfl⟩, d, hd => by cases hd; exact h.depth
+  | .polygon poly _ _, c, h, d, hd => by
+    cases hd
+    simp only [CoordsV] at h
+    by_cases he : poly.empty = true
+    · rw [if_pos he] at h; subst h; exact ⟨by simp, by simp⟩
+    · rw [if_neg he] at h
+      obtain ⟨ns, h, rfl⟩ := h
+      exact h.depth
+  | .rectO _ _ _, _, ⟨ns, h, rfl⟩, d, hd => by cases hd; exact h.depth
+  | .coll _ _ _ _, _, h, _, _ => by cases h
+  | .feature _ _, _, h, _, _ => by cases h
+  | .circle _ _, _, h, _, _ => by cases h
+
+theorem all2_depth {cs ns d} (h : All2 CoordsV cs ns) (hk : ∀ c ∈ cs, leafDepth c = some d) :
+    ∀ n ∈ ns, ArrDepth d n := by
+  induction h with
+  | nil => simp
+  | cons h _ ih =>
+    intro n hn
+    rcases List.mem_cons.mp hn with rfl | hn
+    · exact h.depth d (hk _ (by simp))
+    · exact ih (fun c hc => hk c (by simp [hc])) n hn
+
+/-- for the geometry kinds the document is `{"type":T,"coordinates":c,…}` where `c` is an array
+    nested to the depth the type requires.  Stated on the AST `v` of the written document
+    (`Written x v`, hence `write x = some v.render` by `Written.render`). -/
+theorem write_coords_depth (x : Obj) (v : JVal) (hk : IsGeomKind x) (h : Written x v) :
+    ∃ c fm, v = mkObj (geomType x) "coordinates" c fm ∧ ArrDepth (coordDepth x) c ∧
+      write x = some (objText (geomType x) "coordinates" c.render (cjTail (fm.map memText))) := by
+  have hw := h.render.1
+  cases x with
+  | point pos ex =>
+    obtain ⟨c, fm, hc, _, rfl⟩ := h
+    exact ⟨c, fm, rfl, hc.depth 1 rfl, by rw [hw, render_mkObj']; rfl⟩
+  | spoint pos =>
+    obtain ⟨c, hc, rfl⟩ := h
+    exact ⟨c, [], rfl, hc.depth 1 rfl, by rw [hw, render_mkObj']; rfl⟩
+  | lineString l poss ex =>
+    obtain ⟨c, fm, hc, _, rfl⟩ := h
+    exact ⟨c, fm, rfl, hc.depth 2 rfl, by rw [hw, render_mkObj']; rfl⟩
+  | polygon p rings ex =>
+    obtain ⟨c, fm, hc, _, rfl⟩ := h
+    exact ⟨c, fm, rfl, hc.depth 3 rfl, by rw [hw, render_mkObj']; rfl⟩
+  | rectO b lo hi =>
+    obtain ⟨c, hc, rfl⟩ := h
+    exact ⟨c, [], rfl, hc.depth 3 rfl, by rw [hw, render_mkObj']; rfl⟩
+  | feature b ex => cases hk
+  | circle c r => cases hk
+  | coll kind cs ex idx =>
+    obtain ⟨ns, fm, hns, _, rfl⟩ := h
+    cases kind with
+    | multiPoint =>
+      exact ⟨.arr ns, fm, rfl, ⟨by simp, all2_depth hns hk⟩, by rw [hw, render_mkObj']; rfl⟩
+    | multiLineString =>
+      exact ⟨.arr ns, fm, rfl, ⟨by simp, all2_depth hns hk⟩, by rw [hw, render_mkObj']; rfl⟩
+    | multiPolygon =>
+      exact ⟨.arr ns, fm, rfl, ⟨by simp, all2_depth hns hk⟩, by rw [hw, render_mkObj']; rfl⟩
+    | geometryCollection => cases hk
+    | featureCollection => cases hk
+
+/-! ### non-finite ordinates -/
+
+theorem not_numTok_of_letter {l : List Char} {c : Char} (hc : c ∈ l)
+    (hbad : ¬ (c.isDigit = true ∨ c = '-' ∨ c = '+' ∨ c = '.' ∨ c = 'e' ∨ c = 'E')) : ¬ IsNumTok l :=
+  fun h => hbad (numTok_chars h c hc)
+
+/-- a position with `fin = false` whose texts are "null" is written with `null` ordinates; and
+    none of the non-finite spellings of `strconv.AppendFloat` is a number token, so under
+    `WriteOK` (every ordinate text is "null" or a number token) they cannot occur at a value
+    position of the output, which is JSON by `write_is_json`. -/
+theorem nonfinite_written_as_null :
+    (∀ (p : Pt), write (.point ⟨p, false, "null", "null"⟩ none) =
+        some "{\"type\":\"Point\",\"coordinates\":[null,null]}") ∧
+    (∀ pos : Pos, pos.xs = "null" → pos.ys = "null" → writePos pos none 0 = some "[null,null]") ∧
+    ¬ IsNumTok "NaN".toList ∧ ¬ IsNumTok "+Inf".toList ∧ ¬ IsNumTok "-Inf".toList ∧
+    ¬ IsNumTok "Inf".toList ∧
+    (∀ x, WriteOK x → ∃ s, write x = some s ∧ IsJSONValue s.toList) := by
+  refine ⟨?_, ?_, ?_, ?_, ?_, ?_, write_is_json_value⟩
+  · intro p; simp only [write, writePos, writeExtra]; decide
+  · intro pos hx hy; simp only [writePos, hx, hy]; decide
+  · exact not_numTok_of_letter (c := 'N') (by decide) (by decide)
+  · exact not_numTok_of_letter (c := 'I') (by decide) (by decide)
+  · exact not_numTok_of_letter (c := 'I') (by decide) (by decide)
+  · exact not_numTok_of_letter (c := 'I') (by decide) (by decide)
+
+/-! ### AppendJSON appends -/
+
+/-- `AppendJSON(dst)`: the document is appended to `dst` -/
+def appendJSON (pre : String) (x : Obj) : Option String := (write x).map (pre ++ ·)
+
+/-- the result is `pre` followed by `write x`.  Trivially true in a pure model; the aliasing half
+    of the property (the prefix bytes of the destination slice are left untouched) is checked on
+    the implementation by the harness, it is not expressible here. -/
+theorem append_prefix (pre : String) (x : Obj) : appendJSON pre x = (write x).map (pre ++ ·) := rfl
+
+/-! ### NewFeature member sanitising -/
+
+theorem dropFirst_tokOK : ∀ {ms : List Member}, TokOKM ms → TokOKM (Driver.featureExtra.dropFirst ms)
+  | [], _ => trivial
+  | (k, d, v) :: ms, h => by
+    rw [TokOKM] at h
+    rw [Driver.featureExtra.dropFirst]
+    split
+    · exact h.2.2
+    · rw [TokOKM]; exact ⟨h.1, h.2.1, dropFirst_tokOK h.2.2⟩
+
+/-- whatever text is given, the resulting `Extra` (if any) has `members` = the render of a JSON
+    object AST with at least one member (a sublist of the given members), it is not `{}` (nor
+    empty), and `dims = 0`, `values = []` -/
+theorem featureExtra_ok (trimmed : String) (ast : Option JVal) (e : Extra)
+    (h : Driver.featureExtra trimmed ast = some e) :
+    (∃ ms ms', ast = some (.obj ms) ∧ ms' = Driver.featureExtra.dropFirst ms ∧ ms' ≠ [] ∧
+        e.members = (JVal.obj ms').render ∧ e.hasProps = ms'.any (fun m => m.2.1 == "properties")) ∧
+      e.members ≠ "{}" ∧ e.members ≠ "" ∧ e.dims = 0 ∧ e.values = [] := by
+  unfold Driver.featureExtra at h
+  split at h
+  · cases h
+  · split at h
+    · rename_i ms
+      simp only at h
+      split at h
+      · cases h
+      · rename_i hne
+        simp only [Option.some.injEq] at h
+        subst h
+        have hne' : (JVal.obj (Driver.featureExtra.dropFirst ms)).render ≠ "{}" := by simpa using hne
+        refine ⟨⟨ms, _, rfl, rfl, ?_, rfl, rfl⟩, hne', ?_, rfl, rfl⟩
+        · intro h0
+          rw [h0] at hne'
+          exact hne' (by decide)
+        · rw [render_obj]
+          intro h0
+          have := congrArg String.toList h0
+          simp at this
+    · cases h
+
+/-- hence `WriteOK` is preserved by wrapping a `WriteOK` object in a feature built this way
+    (for a token-well-formed members AST) -/
+theorem featureExtra_writeOK (trimmed : String) (ast : Option JVal) (x : Obj)
+    (hast : ∀ v, ast = some v → v.TokOK) (hx : WriteOK x) :
+    WriteOK (.feature x (Driver.featureExtra trimmed ast)) := by
+  refine ⟨hx, ?_⟩
+  cases he : Driver.featureExtra trimmed ast with
+  | none => trivial
+  | some e =>
+    obtain ⟨⟨ms, ms', hms, hms', hne, hmem, _⟩, _⟩ := featureExtra_ok trimmed ast e he
+    right
+    rw [hmem]
+    apply render_obj_isObject1 hne
+    rw [hms']
+    exact dropFirst_tokOK (by simpa [JVal.TokOK] using hast _ hms)
+
+/-! ### non-vacuity: a concrete Feature with foreign members -/
+
+section Example
+
+def exMembers : List Member :=
+  [mem "id" (.num true 7 "7" "7000" "7"),
+   mem "properties" (.obj [mem "name" (strV "a\\\"b"), mem "tags" (.arr [.tru, .null, .num true (-3/2) "-1.5" "-1500" "-1.5e0"])])]
+
+def exFeature : Obj :=
+  .feature (.point ⟨⟨3/2, -2⟩, true, "1.5", "-2"⟩ (some ⟨1, ["10"], "", false⟩))
+    (some ⟨0, [], (JVal.obj exMembers).render, true⟩)
+
+def exText : String :=
+  "{\"type\":\"Feature\",\"geometry\":{\"type\":\"Point\",\"coordinates\":[1.5,-2,10]},\"id\":7,\"properties\":{\"name\":\"a\\\"b\",\"tags\":[true,null,-1.5e0]}}"
+
+/-- info: true -/
+#guard_msgs in
+#eval write exFeature == some exText
+
+theorem exMembers_tokOK : TokOKM exMembers := by
+  simp only [exMembers, mem, strV, TokOKM, TokOKL, JVal.TokOK, and_true, true_and]
+  exact ⟨strTokB_sound (by decide), numTokB_sound (by decide), strTokB_sound (by decide),
+    strTokB_sound (by decide), strTokB_sound (by decide), strTokB_sound (by decide),
+    numTokB_sound (by decide)⟩
+
+theorem exFeature_writeOK : WriteOK exFeature := by
+  refine ⟨⟨⟨⟨.inr (numTokB_sound (by decide)), .inr (numTokB_sound (by decide))⟩, ?_, ?_⟩, .inl rfl⟩, .inr ?_⟩
+  · intro t ht
+    simp only [List.mem_singleton] at ht
+    subst ht
+    exact .inr (numTokB_sound (by decide))
+  · simp [TableOK]
+  · exact render_obj_isObject1 (by simp [exMembers]) exMembers_tokOK
+
+/-- the concrete document is a JSON object -/
+example : ∃ s, write exFeature = some s ∧ IsJSONObject s.toList :=
+  write_is_json exFeature exFeature_writeOK
+
+end Example
+
+end Geo
+
+#print axioms Geo.render_is_json
+#print axioms Geo.write_is_json
+#print axioms Geo.write_type
+#print axioms Geo.write_coords_depth
+#print axioms Geo.nonfinite_written_as_null
+#print axioms Geo.append_prefix
+#print axioms Geo.featureExtra_ok
+#print axioms Geo.featureExtra_writeOK
+#print axioms Geo.exFeature_writeOK
